@@ -347,6 +347,24 @@ func appendRoots(v ssa.Value, seen map[ssa.Value]bool, out *[]ssa.Value) {
 			appendRoots(x.Call.Args[0], seen, out)
 			return
 		}
+		// a helper that did not exist at review time: what it returns
+		if callee := x.Call.StaticCallee(); callee != nil && an.IsNew(callee) {
+			if rets := an.ReturnedValues(callee, 0); len(rets) > 0 {
+				for _, rv := range rets {
+					appendRoots(rv, seen, out)
+				}
+				return
+			}
+		}
+	case *ssa.Parameter:
+		if an.IsNew(x.Parent()) {
+			if vals, _ := an.ArgsAtSites(x); len(vals) > 0 {
+				for _, a := range vals {
+					appendRoots(a, seen, out)
+				}
+				return
+			}
+		}
 	case *ssa.Phi:
 		for _, e := range x.Edges {
 			appendRoots(e, seen, out)
@@ -394,7 +412,7 @@ func c19Accumulate(p *load.Program, r *oblig.Report) {
 				}
 				found = append(found, clean(an.ShapeCanon(rt)))
 			}
-			_, isApp := mu.Value.(*ssa.Call)
+			_, isApp := mu.Value.(*ssa.Call) // append(...) or a helper returning the appended list
 			_, isPhi := mu.Value.(*ssa.Phi)
 			r.Check(ok2 && (isApp || isPhi), rule, fmt.Sprintf("%s.%s → %s[%s] grows from its own previous value", s.pkg, s.fn, s.mapShape, key), p.Pos(mu.Pos()),
 				"m[k] = append(m[k], …)", "starts from "+strings.Join(found, " | "))
@@ -678,12 +696,13 @@ func c19Seek(p *load.Program, r *oblig.Report) {
 		return
 	}
 	// the checked store to c.offset: the last one, dominated by the call
-	var final *ssa.Store
-	an.EachInstr(seek, func(ins ssa.Instruction) {
-		if st, ok := fieldStoreIs(ins, "Conn", "offset"); ok && an.Dominates(calls[0], st) {
-			final = st
+	var final *fieldWrite
+	writes := fieldWrites(seek, "Conn", "offset", 0)
+	for i := range writes {
+		if an.Dominates(calls[0], writes[i].At) {
+			final = &writes[i]
 		}
-	})
+	}
 	if final == nil {
 		r.Bad(rule, "kafka.(*Conn).Seek stores the checked offset", p.Pos(seek.Pos()), "c.offset = offset after ReadOffsets", "none")
 		return
@@ -698,7 +717,7 @@ func c19Seek(p *load.Program, r *oblig.Report) {
 	val := sub(an.ShapeCanon(final.Val))
 	if debugSeek {
 		fmt.Println("final.Val:", val)
-		fmt.Println("final conds:", selConds(final))
+		fmt.Println("final conds:", selConds(final.At))
 		an.EachInstr(seek, func(ins ssa.Instruction) {
 			if bo, ok := ins.(*ssa.BinOp); ok && (bo.Op == token.ADD || bo.Op == token.SUB) {
 				fmt.Println("binop:", sub(an.ShapeCanon(bo)), "|", selConds(bo))
@@ -710,7 +729,7 @@ func c19Seek(p *load.Program, r *oblig.Report) {
 	}
 	// expected: φ{ (first + O) | (last - O) | O } with O = φ{(c.offset + offset) | offset}
 	wantVal := "φ{(first + φ{(c.offset + offset) | offset}) | (last - φ{(c.offset + offset) | offset}) | φ{(c.offset + offset) | offset}}"
-	r.Check(val == wantVal, rule, "kafka.(*Conn).Seek computes the target from first / last / current", p.Pos(final.Pos()), wantVal, val)
+	r.Check(val == wantVal, rule, "kafka.(*Conn).Seek computes the target from first / last / current", p.Pos(final.At.Pos()), wantVal, val)
 	// which arm under which whence: look at the two arithmetic binops
 	for _, w := range []struct {
 		op         token.Token
@@ -777,7 +796,7 @@ func c19Seek(p *load.Program, r *oblig.Report) {
 		return
 	}
 	var okConds []string
-	for _, c := range selConds(final) {
+	for _, c := range selConds(final.At) {
 		c = sub(c)
 		if strings.Contains(c, "first") || strings.Contains(c, "last") {
 			okConds = append(okConds, strings.ReplaceAll(c, wantVal, "T"))
@@ -785,23 +804,23 @@ func c19Seek(p *load.Program, r *oblig.Report) {
 	}
 	sort.Strings(okConds)
 	wantR := "(T >= first) ∧ (last >= T)"
-	r.Check(strings.Join(okConds, " ∧ ") == wantR, rule, "kafka.(*Conn).Seek accepts exactly first <= target <= last", p.Pos(final.Pos()), wantR+" with T the stored target", strings.Join(okConds, " ∧ "))
+	r.Check(strings.Join(okConds, " ∧ ") == wantR, rule, "kafka.(*Conn).Seek accepts exactly first <= target <= last", p.Pos(final.At.Pos()), wantR+" with T the stored target", strings.Join(okConds, " ∧ "))
 	// unchecked stores: only under SeekDontCheck
 	nUn := 0
-	an.EachInstr(seek, func(ins ssa.Instruction) {
-		st, ok := fieldStoreIs(ins, "Conn", "offset")
-		if !ok || st == final {
-			return
+	for i := range writes {
+		w := writes[i]
+		if w.At == final.At {
+			continue
 		}
 		nUn++
 		dont := false
-		for _, c := range selConds(st) {
+		for _, c := range selConds(w.At) {
 			if strings.Contains(clean(c), fmt.Sprintf("(%d & whence)", consts["SeekDontCheck"])) {
 				dont = true
 			}
 		}
-		r.Check(dont, rule, "kafka.(*Conn).Seek stores an unchecked offset only under SeekDontCheck", p.Pos(st.Pos()), "guard mentions whence & SeekDontCheck", strings.Join(selConds(st), " ∧ "))
-	})
+		r.Check(dont, rule, "kafka.(*Conn).Seek stores an unchecked offset only under SeekDontCheck", p.Pos(w.At.Pos()), "guard mentions whence & SeekDontCheck", strings.Join(selConds(w.At), " ∧ "))
+	}
 	// ReadOffsets pairing
 	shapes := map[int]string{}
 	an.EachInstr(ro, func(ins ssa.Instruction) {
@@ -826,6 +845,48 @@ func c19Seek(p *load.Program, r *oblig.Report) {
 		want := fmt.Sprintf("readOffset(c,%d)#0", consts[w.c])
 		r.Check(s == want, rule, "kafka."+w.fn+" asks for "+w.c, p.Pos(f.Pos()), want, s)
 	}
+}
+
+// fieldWrite is one assignment of a struct field as seen from a function: directly, or through a helper that did
+// not exist at review time (then At is the call in the function and Val the argument that the helper stores).
+type fieldWrite struct {
+	At  ssa.Instruction
+	Val ssa.Value
+}
+
+func fieldWrites(fn *ssa.Function, typ, field string, depth int) []fieldWrite {
+	var out []fieldWrite
+	if depth > 3 {
+		return out
+	}
+	for _, b := range fn.Blocks {
+		for _, ins := range b.Instrs {
+			if st, ok := fieldStoreIs(ins, typ, field); ok {
+				out = append(out, fieldWrite{ins, st.Val})
+				continue
+			}
+			ci, ok := ins.(ssa.CallInstruction)
+			if !ok {
+				continue
+			}
+			sc := ci.Common().StaticCallee()
+			if sc == nil || !an.IsNew(sc) {
+				continue
+			}
+			for _, w := range fieldWrites(sc, typ, field, depth+1) {
+				v := w.Val
+				if prm, isP := v.(*ssa.Parameter); isP {
+					for i, q := range sc.Params {
+						if q == prm && i < len(ci.Common().Args) {
+							v = ci.Common().Args[i]
+						}
+					}
+				}
+				out = append(out, fieldWrite{ins, v})
+			}
+		}
+	}
+	return out
 }
 
 // ---------- R5 Conn
